@@ -190,6 +190,12 @@ def _entry_spec(ctx, repo, ld):
                 continue
             npass = sum(1 for k, v in p.atoms.items() if re.match(r"more\(ArgumentParser\(", k) and v)
             X = [f"asdict(ArgumentParser(os.path.basename({E}.arguments[0])).parse_args({E}.arguments[1:])[{j}])" for j in range(npass)]
+            from ..flow import MUTATORS
+
+            muts = [e for e in effs if e[0] == "call" and any(vt(e[1]).startswith(x + "[") or vt(e[1]).startswith(x + ".") for x in X) and vt(e[1]).rsplit(".", 1)[-1] in MUTATORS]
+            if muts:
+                ok, why = False, f"{sit}: the entry's own lists are modified after they were built (`{vt(muts[0][1])[-60:]}`): the order of -D / -I / -include given on the command line is what the compiler sees"
+                break
             got_add = adds
             if got_add != X:
                 ok, why = False, f"{sit}: {npass} pass(es) parsed (by the parser chosen from basename(arguments[0]) on arguments[1:]) but the entries added are {got_add}"
